@@ -91,10 +91,14 @@ func scriptedResponder(ln net.Listener) {
 				}
 			}
 			var out bytes.Buffer
+			closed := false
 			for _, r := range *currentScript.Load() {
 				writeRec(&out, r.typ, id, r.content, r.padding)
+				closed = closed || (r.typ == 6 && len(r.content) == 0)
 			}
-			writeRec(&out, 6, id, nil, 0) // end of stdout
+			if !closed {
+				writeRec(&out, 6, id, nil, 0) // end of stdout
+			}
 			end := make([]byte, 8)
 			writeRec(&out, 3, id, end, 0) // end request
 			c.Write(out.Bytes())
@@ -344,21 +348,35 @@ func main() {
 		for _, cs := range cutSets {
 			for _, pad := range []int{0, 7, 255} {
 				nrec := len(cs) + 1
-				for errPos := -1; errPos <= nrec; errPos++ {
-					var script []recSpec
-					prev := 0
-					pieces := append(append([]int{}, cs...), len(full))
-					for i, c := range pieces {
-						if errPos == i {
+				// stderr record before stdout record errPos; nrec: after the last one; nrec+1: after the empty record
+				// that ends stdout; errEnd: the stderr stream is ended by an empty record of its own, as the
+				// specification asks of a responder that wrote to it
+				for errPos := -1; errPos <= nrec+1; errPos++ {
+					for _, errEnd := range []bool{false, true} {
+						if errEnd && errPos < 0 {
+							continue
+						}
+						var script []recSpec
+						prev := 0
+						pieces := append(append([]int{}, cs...), len(full))
+						for i, c := range pieces {
+							if errPos == i {
+								script = append(script, recSpec{7, []byte("STDERR-TEXT-ONLY-FOR-THE-LOG"), pad})
+							}
+							script = append(script, recSpec{6, full[prev:c], pad})
+							prev = c
+						}
+						if errPos == nrec {
 							script = append(script, recSpec{7, []byte("STDERR-TEXT-ONLY-FOR-THE-LOG"), pad})
 						}
-						script = append(script, recSpec{6, full[prev:c], pad})
-						prev = c
+						if errPos == nrec+1 {
+							script = append(script, recSpec{6, nil, pad}, recSpec{7, []byte("STDERR-TEXT-ONLY-FOR-THE-LOG"), pad})
+						}
+						if errEnd {
+							script = append(script, recSpec{7, nil, pad})
+						}
+						runScripted(rep, srv, script, wantStatus, d.body, errPos >= 0, fmt.Sprintf("def%d cuts=%v pad=%d stderr@%d stderr-ended=%v", di, cs, pad, errPos, errEnd))
 					}
-					if errPos == nrec {
-						script = append(script, recSpec{7, []byte("STDERR-TEXT-ONLY-FOR-THE-LOG"), pad})
-					}
-					runScripted(rep, srv, script, wantStatus, d.body, errPos >= 0, fmt.Sprintf("def%d cuts=%v pad=%d stderr@%d", di, cs, pad, errPos))
 				}
 			}
 		}
